@@ -120,3 +120,25 @@ Definition snapshot_present (st : store) (l : string) : Prop :=
 
 Definition hinv (h : hstate) : Prop :=
   wf_store (h_lists h) (h_store h) /\ forall l, In l (h_lists h) -> snapshot_present (h_store h) l.
+
+(* decidable "every retained snapshot is fully present", evaluated by the harness on real table directories *)
+Definition snapshot_presentb (st : store) (l : string) : bool :=
+  negb (nonempty l) ||
+  match lookup (resolve l) st with
+  | Some ob =>
+      match as_list (body ob) with
+      | Some ms =>
+          forallb (fun m => negb (nonempty m) ||
+                     match lookup (resolve m) st with
+                     | Some ob2 => match as_manifest (body ob2) with
+                                   | Some es => forallb (fun e => has_key (resolve e) st) es
+                                   | None => false
+                                   end
+                     | None => false
+                     end) ms
+      | None => false
+      end
+  | None => false
+  end.
+Definition hinvb (snaps : list string) (st : store) : bool :=
+  wf_storeb snaps st && forallb (snapshot_presentb st) snaps.
